@@ -860,6 +860,160 @@ Proof.
   simpl. rewrite lookup_insert. eexists. split; [reflexivity|]. split; reflexivity.
 Qed.
 
+(* ---------- nodes: AddOrUpdateNode / setNode ---------- *)
+
+Definition lsum (f : task -> bool) (l : list task) (d : dim) : Z :=
+  foldr (fun t a => if f t then amt (t_req t) d + a else a) 0 l.
+
+Lemma tsum_lsum f (M : gmap positive task) d : tsum f M d = lsum f (map snd (map_to_list M)) d.
+Proof.
+  unfold tsum, map_fold, lsum. simpl. induction (map_to_list M) as [|[i t] l IH]; simpl; [reflexivity|].
+  rewrite IH. reflexivity.
+Qed.
+
+Lemma tsum_filter (P g : task -> bool) (T : gmap positive task) d :
+  tsum g (filter (fun kv => P (snd kv) = true) T) d = tsum (fun t => P t && g t) T d.
+Proof.
+  induction T as [|i t T Hn IH] using map_ind.
+  - rewrite map_filter_empty, !tsum_empty. reflexivity.
+  - rewrite (tsum_insert (fun t => P t && g t)) by exact Hn. destruct (P t) eqn:HP.
+    + rewrite map_filter_insert_True by exact HP. rewrite tsum_insert, IH; [reflexivity|].
+      apply map_filter_lookup_None. left. exact Hn.
+    + rewrite map_filter_insert_not'; cbn [snd fst].
+      * rewrite IH. simpl. lia.
+      * rewrite HP. discriminate.
+      * intros y Hy. congruence.
+Qed.
+
+Definition np (t : task) : bool := negb (is_st Pipelined t).
+
+Lemma node_set_acc_fields X t :
+  let Y := node_set_acc X t in
+  n_id Y = n_id X /\ n_has_node Y = n_has_node X /\ n_alloc Y = n_alloc X /\ n_tasks Y = n_tasks X /\
+  n_used Y = (if np t then add (n_used X) (t_req t) else n_used X) /\
+  n_idle Y = (if np t then sub (n_idle X) (t_req t) else n_idle X) /\
+  n_releasing Y = (if is_st Releasing t then add (n_releasing X) (t_req t) else n_releasing X) /\
+  n_pipelined Y = (if is_st Pipelined t then add (n_pipelined X) (t_req t) else n_pipelined X).
+Proof. unfold node_set_acc, np, is_st. destruct (t_status t); simpl; repeat split; reflexivity. Qed.
+
+Lemma fold_acc l : forall X,
+  sc (n_idle X) <> None -> Forall task_wf l ->
+  let Y := fold_left node_set_acc l X in
+  n_id Y = n_id X /\ n_has_node Y = n_has_node X /\ n_alloc Y = n_alloc X /\ n_tasks Y = n_tasks X /\
+  sc (n_idle Y) <> None /\
+  (forall d, amt (n_used Y) d = amt (n_used X) d + lsum np l d) /\
+  (forall d, amt (n_idle Y) d = amt (n_idle X) d - lsum np l d) /\
+  (forall d, amt (n_releasing Y) d = amt (n_releasing X) d + lsum (is_st Releasing) l d) /\
+  (forall d, amt (n_pipelined Y) d = amt (n_pipelined X) d + lsum (is_st Pipelined) l d) /\
+  (sc (n_used X) <> None \/ Exists (fun t => np t = true) l -> sc (n_used Y) <> None) /\
+  (sc (n_releasing X) <> None \/ Exists (fun t => is_st Releasing t = true) l -> sc (n_releasing Y) <> None) /\
+  (sc (n_pipelined X) <> None \/ Exists (fun t => is_st Pipelined t = true) l -> sc (n_pipelined Y) <> None).
+Proof.
+  induction l as [|t l IH]; intros X Hsc Hwf.
+  - simpl. repeat split; auto; try (intros d; lia); intros [H|H]; auto; inversion H.
+  - inversion Hwf as [|? ? Hw Hwl]; subst. simpl.
+    destruct (node_set_acc_fields X t) as (E1 & E2 & E3 & E4 & E5 & E6 & E7 & E8).
+    set (X1 := node_set_acc X t) in *.
+    assert (Hsc1 : sc (n_idle X1) <> None).
+    { rewrite E6. destruct (np t); [apply sc_sub_keep|]; exact Hsc. }
+    destruct (IH X1 Hsc1 Hwl) as (F1 & F2 & F3 & F4 & F5 & F6 & F7 & F8 & F9 & G1 & G2 & G3).
+    split; [congruence|]. split; [congruence|]. split; [congruence|]. split; [congruence|]. split; [exact F5|].
+    split; [|split; [|split; [|split; [|split; [|split]]]]].
+    + intros d. rewrite F6, E5. destruct (np t); [rewrite amt_add|]; lia.
+    + intros d. rewrite F7, E6. destruct (np t); [rewrite amt_sub by (intros; contradiction)|]; lia.
+    + intros d. rewrite F8, E7. destruct (is_st Releasing t); [rewrite amt_add|]; lia.
+    + intros d. rewrite F9, E8. destruct (is_st Pipelined t); [rewrite amt_add|]; lia.
+    + intros H. apply G1. rewrite E5. destruct H as [H|H].
+      * left. destruct (np t); [apply sc_add_keep|]; exact H.
+      * inversion H as [? ? Ht|? ? Hl]; subst; [left; rewrite Ht; apply sc_add_some; exact Hw|right; exact Hl].
+    + intros H. apply G2. rewrite E7. destruct H as [H|H].
+      * left. destruct (is_st Releasing t); [apply sc_add_keep|]; exact H.
+      * inversion H as [? ? Ht|? ? Hl]; subst; [left; rewrite Ht; apply sc_add_some; exact Hw|right; exact Hl].
+    + intros H. apply G3. rewrite E8. destruct H as [H|H].
+      * left. destruct (is_st Pipelined t); [apply sc_add_keep|]; exact H.
+      * inversion H as [? ? Ht|? ? Hl]; subst; [left; rewrite Ht; apply sc_add_some; exact Hw|right; exact Hl].
+Qed.
+
+(* NodeInfo.SetNode: the ledger recomputed from the held tasks is the ledger of
+   exactly the tasks that name the node *)
+Lemma node_set_rep T n N o :
+  NodeRep T n N -> sc (no_alloc o) <> None -> (forall i t, T !! i = Some t -> task_wf t) ->
+  NodeRep T n (node_set N o) /\ n_has_node (node_set N o) = true /\ n_alloc (node_set N o) = no_alloc o.
+Proof.
+  intros [Hid Hts Hl] Hal Hwf. unfold node_set.
+  set (l := map snd (map_to_list (n_tasks N))).
+  assert (Hmem : forall i t, T !! i = Some t -> on_n n t = true -> t ∈ l).
+  { intros i t Ht Hon. unfold l. apply elem_of_list_fmap. exists (i, t). split; [reflexivity|].
+    apply elem_of_map_to_list. rewrite Hts. apply map_filter_lookup_Some. auto. }
+  assert (Hlw : Forall task_wf l).
+  { apply Forall_forall. intros t Ht. unfold l in Ht. apply elem_of_list_fmap in Ht. destruct Ht as ([i u] & -> & Hin).
+    apply elem_of_map_to_list in Hin. rewrite Hts in Hin. apply map_filter_lookup_Some in Hin. exact (Hwf i u (proj1 Hin)). }
+  destruct (fold_acc l (node_reset N o) Hal Hlw) as (F1 & F2 & F3 & F4 & F5 & F6 & F7 & F8 & F9 & G1 & G2 & G3).
+  set (Y := fold_left node_set_acc l (node_reset N o)) in *. simpl in F1, F2, F3, F4.
+  assert (Hsum : forall g d, lsum g l d = tsum (fun t => on_n n t && g t) T d).
+  { intros g d. unfold l. rewrite <- tsum_lsum, Hts. apply tsum_filter. }
+  assert (Hex : forall (g : task -> bool) i t, T !! i = Some t -> on_n n t && g t = true -> Exists (fun t => g t = true) l).
+  { intros g i t Ht Hb. apply andb_true_iff in Hb. destruct Hb as [Hon Hg]. apply Exists_exists. exists t. split; [|exact Hg].
+    exact (Hmem i t Ht Hon). }
+  split; [|split; [exact F2|exact F3]].
+  split; [congruence|congruence|]. intros _. split.
+  - exact F5.
+  - split.
+    + intros d. rewrite F6. simpl. rewrite amt_empty, Hsum. reflexivity.
+    + intros Hn i t Ht. destruct (f_used n t) eqn:Hf; [|reflexivity]. exfalso. apply G1; [|exact Hn]. right. exact (Hex np i t Ht Hf).
+  - split.
+    + intros d. rewrite F8. simpl. rewrite amt_empty, Hsum. reflexivity.
+    + intros Hn i t Ht. destruct (f_rel n t) eqn:Hf; [|reflexivity]. exfalso. apply G2; [|exact Hn]. right. exact (Hex (is_st Releasing) i t Ht Hf).
+  - split.
+    + intros d. rewrite F9. simpl. rewrite amt_empty, Hsum. reflexivity.
+    + intros Hn i t Ht. destruct (f_pip n t) eqn:Hf; [|reflexivity]. exfalso. apply G3; [|exact Hn]. right. exact (Hex (is_st Pipelined) i t Ht Hf).
+  - intros d. rewrite F7, F3. simpl. rewrite Hsum. reflexivity.
+Qed.
+
+(* a node the cache has never heard of: no held task names it *)
+Lemma node_rep_fresh c o :
+  Rep c -> c_nodes c !! no_id o = None -> sc (no_alloc o) <> None -> NodeRep (c_heap c) (no_id o) (fresh_node o).
+Proof.
+  intros R Hn Hal.
+  assert (Hno : forall i t, c_heap c !! i = Some t -> on_n (no_id o) t = false).
+  { intros i t Ht. destruct (on_n (no_id o) t) eqn:Hon; [|reflexivity].
+    destruct (rp_nodes_ex c R i t _ Ht Hon) as [x Hx]. congruence. }
+  assert (Hz : forall g d, tsum (fun t => on_n (no_id o) t && g t) (c_heap c) d = 0).
+  { intros g d. apply tsum_none. intros i t Ht. rewrite (Hno i t Ht). reflexivity. }
+  split; [reflexivity| |].
+  - simpl. symmetry. apply map_filter_empty_iff. intros i t Ht Hon. cbn [snd] in Hon. rewrite (Hno i t Ht) in Hon. discriminate.
+  - intros _. split; simpl.
+    + exact Hal.
+    + split; [intros d; rewrite amt_empty; symmetry; apply Hz|]. intros _ i t Ht. unfold f_used. rewrite (Hno i t Ht). reflexivity.
+    + split; [intros d; rewrite amt_empty; symmetry; apply Hz|]. intros _ i t Ht. unfold f_rel. rewrite (Hno i t Ht). reflexivity.
+    + split; [intros d; rewrite amt_empty; symmetry; apply Hz|]. intros _ i t Ht. unfold f_pip. rewrite (Hno i t Ht). reflexivity.
+    + intros d. unfold f_used. rewrite Hz. lia.
+Qed.
+
+(* Theorem (AddOrUpdateNode): the invariant is kept; the entry has the node
+   object and its allocatable, whether it is new, updated, or was a placeholder
+   holding the tasks of pods that arrived before the node / survived its removal *)
+Theorem add_or_update_node_inv c o :
+  Rep c -> sc (no_alloc o) <> None ->
+  Rep (add_or_update_node c o) /\
+  exists N, c_nodes (add_or_update_node c o) !! no_id o = Some N /\ n_has_node N = true /\ n_alloc N = no_alloc o.
+Proof.
+  intros R Hal. unfold add_or_update_node.
+  set (ni := match c_nodes c !! no_id o with Some ni => node_set ni o | None => fresh_node o end).
+  assert (H : NodeRep (c_heap c) (no_id o) ni /\ n_has_node ni = true /\ n_alloc ni = no_alloc o).
+  { unfold ni. destruct (c_nodes c !! no_id o) as [N|] eqn:E.
+    - apply node_set_rep; auto; [exact (rp_nodes c R _ N E)|]. intros i t Ht. exact (proj2 (rp_wf c R i t Ht)).
+    - split; [apply node_rep_fresh; auto|split; reflexivity]. }
+  destruct H as (HR & Hh & Ha). split.
+  - destruct R as [A B C D E F]. split; simpl; auto.
+    + intros n N HN. destruct (decide (n = no_id o)) as [->|Hne].
+      * rewrite lookup_insert in HN. injection HN as <-. exact HR.
+      * rewrite lookup_insert_ne in HN by congruence. exact (E n N HN).
+    + intros i t n Ht Hon. destruct (decide (n = no_id o)) as [->|Hne]; [rewrite lookup_insert; eauto|].
+      rewrite lookup_insert_ne by congruence. exact (F i t n Ht Hon).
+  - exists ni. simpl. rewrite lookup_insert. auto.
+Qed.
+
 (* ---------- the view is determined by the tasks and the node / PodGroup objects ---------- *)
 
 Definition job_equiv (a b : cjob) : Prop :=
@@ -985,6 +1139,7 @@ Definition step_ok (c : cache) (e : event) : Prop :=
   | EPod p => pod_ok p /\ forall old, c_store c !! p_id p = Some old -> upd_ok old p
   | EPodDel _ | ENodeDel _ | EQueue _ | EQueueDel _ | EPGDel _ => True
   | EPG g => g_id g <> no_job
+  | ENode o => sc (no_alloc o) <> None      (* status.allocatable always lists "pods" *)
   | _ => False
   end.
 
@@ -1006,6 +1161,7 @@ Proof.
   intros (R & S & So) Hok. destruct e; simpl in Hok; try contradiction.
   - destruct Hok as [Hp Hu]. destruct (handle_pod_inv eps c p R S So Hp Hu) as (A & B & C & _). split; auto.
   - destruct (handle_pod_del_inv eps c id R S So) as (A & B & C & _). split; auto.
+  - split; [exact (proj1 (add_or_update_node_inv c o R Hok))|]. split; [exact S|exact So].
   - assert (E : c_heap (remove_node c id) = c_heap c /\ c_store (remove_node c id) = c_store c).
     { unfold remove_node. destruct (c_nodes c !! id); [case_bool_decide|]; split; reflexivity. }
     destruct E as [E1 E2].
@@ -1044,6 +1200,168 @@ Proof.
   destruct (history_inv h empty_cache inv_empty H) as (_ & S & _).
   destruct (history_inv h' empty_cache inv_empty H') as (_ & S' & _).
   unfold Synced in *. rewrite S, S', Hs. reflexivity.
+Qed.
+
+(* ---------- the node objects and the pod store are tracked ---------- *)
+
+Definition NodesMirror (c : cache) (on : gmap positive nodeobj) : Prop :=
+  forall n, match on !! n with
+            | Some ob => exists N, c_nodes c !! n = Some N /\ n_has_node N = true /\ n_alloc N = no_alloc ob
+            | None => forall N, c_nodes c !! n = Some N -> n_has_node N = false
+            end.
+
+Lemma mirror_ext a b on :
+  nodes_ext (c_nodes a) (c_nodes b) -> NodesMirror a on -> NodesMirror b on.
+Proof.
+  intros He Hm n. specialize (He n). specialize (Hm n). destruct (on !! n) as [ob|].
+  - destruct Hm as (N & HN & Hh & Ha). rewrite HN in He. destruct He as (N' & HN' & Hmeta).
+    exists N'. unfold nmeta in Hmeta. injection Hmeta as E1 E2. split; [exact HN'|]. split; congruence.
+  - intros N' HN'. destruct (c_nodes a !! n) as [N|] eqn:E.
+    + destruct He as (N'' & HN'' & Hmeta). rewrite HN'' in HN'. injection HN' as <-.
+      unfold nmeta in Hmeta. injection Hmeta as E1 E2. rewrite E1. exact (Hm N eq_refl).
+    + exact (He N' HN').
+Qed.
+
+Lemma mirror_same_nodes a b on : c_nodes b = c_nodes a -> NodesMirror a on -> NodesMirror b on.
+Proof. intros E. apply mirror_ext. rewrite E. apply nodes_ext_refl. Qed.
+
+Definition Tracks (c : cache) (o : objs) : Prop := c_store c = o_pods o /\ NodesMirror c (o_nodes o).
+
+Theorem step_tracks c e o :
+  Inv c -> step_ok c e -> Tracks c o -> Tracks (handle eps c e) (apply_event o e).
+Proof.
+  intros (R & S & So) Hok [Hst Hm]. destruct e; simpl in Hok; try contradiction.
+  - destruct Hok as [Hp Hu]. destruct (handle_pod_inv eps c p R S So Hp Hu) as (_ & _ & _ & E & _ & Hne).
+    split; [rewrite E, Hst; reflexivity|]. exact (mirror_ext c _ _ Hne Hm).
+  - destruct (handle_pod_del_inv eps c id R S So) as (_ & _ & _ & E & _ & Hne).
+    split; [rewrite E, Hst; reflexivity|]. exact (mirror_ext c _ _ Hne Hm).
+  - destruct (add_or_update_node_inv c o0 R Hok) as (_ & N & HN & Hh & Ha).
+    split; [exact Hst|]. intros n. simpl. destruct (decide (n = no_id o0)) as [->|Hne].
+    + rewrite lookup_insert. exists N. auto.
+    + rewrite lookup_insert_ne by congruence. specialize (Hm n).
+      unfold handle, handle_with, add_or_update_node. simpl. rewrite lookup_insert_ne by congruence. exact Hm.
+  - split.
+    + simpl. unfold remove_node. destruct (c_nodes c !! id); [case_bool_decide|]; exact Hst.
+    + intros n. simpl. specialize (Hm n). unfold remove_node.
+      destruct (decide (n = id)) as [->|Hne].
+      * rewrite lookup_delete. destruct (c_nodes c !! id) as [ni|] eqn:E; [case_bool_decide|]; simpl.
+        -- intros N. rewrite lookup_delete. discriminate.
+        -- intros N. rewrite lookup_insert. intros [= <-]. reflexivity.
+        -- intros N HN. congruence.
+      * rewrite lookup_delete_ne by congruence.
+        destruct (c_nodes c !! id) as [ni|] eqn:E; [case_bool_decide|]; simpl;
+          rewrite ?lookup_delete_ne, ?lookup_insert_ne by congruence; exact Hm.
+  - split; [exact Hst|]. apply (mirror_same_nodes c); [reflexivity|exact Hm].
+  - split.
+    + simpl. unfold delete_pod_group. destruct (c_jobs c !! id); exact Hst.
+    + apply (mirror_same_nodes c); [|exact Hm]. simpl. unfold delete_pod_group. destruct (c_jobs c !! id); reflexivity.
+  - split; [exact Hst|]. apply (mirror_same_nodes c); [reflexivity|exact Hm].
+  - split; [exact Hst|]. apply (mirror_same_nodes c); [reflexivity|exact Hm].
+Qed.
+
+Lemma history_tracks h : forall c o,
+  Inv c -> hist_ok c h -> Tracks c o -> Tracks (run eps c h) (fold_left apply_event h o).
+Proof.
+  induction h as [|e r IH]; intros c o HI Hok HT; [exact HT|].
+  destruct Hok as [H1 H2]. simpl. apply IH; [apply step_inv; auto|exact H2|apply step_tracks; auto].
+Qed.
+
+Lemma tracks_empty : Tracks empty_cache no_objs.
+Proof. split; [reflexivity|]. intros n. simpl. rewrite lookup_empty. intros N H. rewrite lookup_empty in H. discriminate. Qed.
+
+(* Theorem (converges_to_final_objects).  Two histories of pod, node (add,
+   update, remove, re-add), PodGroup and queue notifications that respect the
+   API rules -- in ANY order across objects: pods before their node or PodGroup,
+   nodes removed and re-added under running pods, status flips, deletion
+   timestamps -- and end with the same final pods and the same final node
+   objects leave caches with the same view: the same tasks (status, node, job),
+   for every job the same members and the same TotalRequest / Allocated, for
+   every node the same held tasks, the same readiness, and (when the node object
+   exists) the same Idle / Used / Releasing / Pipelined; an entry that holds a
+   task, or a node that has its object, exists on both sides.  Taking for the
+   second history the canonical feed of the final objects to an empty cache
+   ([build]) gives the statement of the property. *)
+Theorem converges_to_final_objects h h' :
+  hist_ok empty_cache h -> hist_ok empty_cache h' ->
+  o_pods (final_objects h) = o_pods (final_objects h') ->
+  o_nodes (final_objects h) = o_nodes (final_objects h') ->
+  let c := run eps empty_cache h in let c' := run eps empty_cache h' in
+  c_heap c = c_heap c' /\
+  (forall j cj, c_jobs c !! j = Some cj ->
+     (j_tasks (cj_job cj) <> ∅ -> is_Some (c_jobs c' !! j)) /\
+     (forall cj', c_jobs c' !! j = Some cj' -> job_equiv cj cj')) /\
+  (forall n N, c_nodes c !! n = Some N ->
+     (n_tasks N <> ∅ \/ n_has_node N = true -> is_Some (c_nodes c' !! n)) /\
+     (forall N', c_nodes c' !! n = Some N' ->
+        n_tasks N = n_tasks N' /\ n_has_node N = n_has_node N' /\
+        (n_has_node N = true ->
+         res_eqv (n_alloc N) (n_alloc N') /\ res_eqv (n_idle N) (n_idle N') /\ res_eqv (n_used N) (n_used N') /\
+         res_eqv (n_releasing N) (n_releasing N') /\ res_eqv (n_pipelined N) (n_pipelined N')))).
+Proof.
+  intros H H' Hp Hn c c'.
+  destruct (history_inv h empty_cache inv_empty H) as (R & S & _).
+  destruct (history_inv h' empty_cache inv_empty H') as (R' & S' & _).
+  destruct (history_tracks h empty_cache no_objs inv_empty H tracks_empty) as [Hst Hm].
+  destruct (history_tracks h' empty_cache no_objs inv_empty H' tracks_empty) as [Hst' Hm'].
+  fold (final_objects h) in Hst, Hm. fold (final_objects h') in Hst', Hm'. fold c in R, S, Hst, Hm. fold c' in R', S', Hst', Hm'.
+  assert (Hh : c_heap c = c_heap c').
+  { unfold Synced in S, S'. rewrite S, S', Hst, Hst', Hp. reflexivity. }
+  destruct (view_determined c c' R R' Hh) as [HJ HN].
+  split; [exact Hh|]. split; [exact HJ|].
+  intros n N HNn. destruct (HN n N HNn) as [Hex Heq]. split.
+  - intros [Ht|Hhas]; [exact (Hex Ht)|].
+    specialize (Hm n). specialize (Hm' n). rewrite <- Hn in Hm'.
+    destruct (o_nodes (final_objects h) !! n) as [ob|].
+    + destruct Hm' as (N' & HN' & _). eauto.
+    + rewrite (Hm N HNn) in Hhas. discriminate.
+  - intros N' HN'. destruct (Heq N' HN') as [Hts Hled].
+    specialize (Hm n). specialize (Hm' n). rewrite <- Hn in Hm'.
+    destruct (o_nodes (final_objects h) !! n) as [ob|].
+    + destruct Hm as (N1 & HN1 & Hh1 & Ha1). destruct Hm' as (N2 & HN2 & Hh2 & Ha2).
+      rewrite HNn in HN1. injection HN1 as <-. rewrite HN' in HN2. injection HN2 as <-.
+      split; [exact Hts|]. split; [congruence|]. intros _.
+      assert (Hal : res_eqv (n_alloc N) (n_alloc N')) by (rewrite Ha1, Ha2; apply res_eqv_amt; reflexivity).
+      split; [exact Hal|]. exact (Hled Hh1 Hh2 Hal).
+    + split; [exact Hts|]. rewrite (Hm N HNn), (Hm' N' HN'). split; [reflexivity|discriminate].
+Qed.
+
+(* ---------- resynchronisation ---------- *)
+
+(* Theorem (failed bind / evict repaired): whatever the scheduling cycle did to a
+   held task (Binding on a node after AddBindTask, Releasing after Evict, ...), as
+   long as the invariant holds when its resync runs, syncTask leaves the cache
+   holding exactly NewTaskInfo of the API object, with the invariant -- so (by
+   [view_determined]) with the view of a cache that only ever saw that object *)
+Theorem sync_task_repairs c j st p :
+  Rep c -> c_heap c !! t_id st = Some st -> t_job st = j -> j <> no_job ->
+  api_pod c (t_id st) = Some p -> p_id p = t_id st -> pod_ok p ->
+  let c' := fst (sync_task eps c j st) in
+  Rep c' /\ snd (sync_task eps c j st) = true /\
+  c_heap c' = <[t_id st := task_of_pod eps p]> (c_heap c).
+Proof.
+  intros R Hs Hj Hjn Hapi Hid Hok. unfold sync_task. rewrite Hapi.
+  destruct (delete_task_rep c (Some j) st R Hs (conj Hj Hjn)) as (R1 & Hh1 & _ & _ & _).
+  set (c1 := delete_task c (Some j) st) in *.
+  assert (Hn : c_heap c1 !! t_id (task_of_pod eps p) = None).
+  { change (t_id (task_of_pod eps p)) with (p_id p). rewrite Hid, Hh1. apply lookup_delete. }
+  destruct (add_task_rep eps c1 (p_job p) (task_of_pod eps p) R1 Hn) as (R2 & Hok2 & Hh2 & _).
+  - destruct Hok as (_ & Hw & _). exact Hw.
+  - apply pod_status_not_binding.
+  - apply job_arg_pod. exact Hok.
+  - split; [exact R2|]. split; [exact Hok2|]. rewrite Hh2, Hh1.
+    change (t_id (task_of_pod eps p)) with (p_id p). rewrite Hid. apply insert_delete_insert.
+Qed.
+
+(* the pod is already gone from the API server (the informer has not said so yet):
+   the task is dropped from its job and its node *)
+Theorem sync_task_gone c j st :
+  Rep c -> c_heap c !! t_id st = Some st -> t_job st = j -> j <> no_job ->
+  api_pod c (t_id st) = None ->
+  let c' := fst (sync_task eps c j st) in
+  Rep c' /\ snd (sync_task eps c j st) = true /\ c_heap c' = delete (t_id st) (c_heap c).
+Proof.
+  intros R Hs Hj Hjn Hapi. unfold sync_task. rewrite Hapi.
+  destruct (delete_task_rep c (Some j) st R Hs (conj Hj Hjn)) as (R1 & Hh1 & _). auto.
 Qed.
 
 End Histories.
